@@ -158,7 +158,8 @@ def _target(uni, in_prot, method, ws):
     # absent members travel as xsi:nil="true" elements in half of the XML
     # traffic
     req = encode_request(uni, in_prot, method, args,
-                         xsi_nil=ws.random() < .5)
+                         xsi_nil=ws.random() < .5,
+                         xsi_type=ws.random() < .5)
     if in_prot in SOAP_FAMILY and ws.random() < .5:
         # valid traffic often carries a (here: empty) SOAP Header
         marker = b'Body>'
